@@ -135,6 +135,7 @@ func (cr *CheckRun) PrepareEmitted(bin string, ce CorpusEntry, expectGenError bo
 		}
 	}
 	InstallAuthFamilies(em)
+	InstallSpecFileFamily(em)
 	InstallResponderContracts(em)
 	InstallEnvContracts(em)
 	cr.mu.Lock()
@@ -224,7 +225,7 @@ func (cr *CheckRun) RunEntries(bin string, entries []CorpusEntry, expectGenError
 }
 
 func routingSel(name string) bool {
-	if name == "splitPath" || strings.HasPrefix(name, "(*API).route") || name == "(*API).ServeHTTP" {
+	if name == "splitPath" || strings.HasPrefix(name, "(*API).route") || name == "(*API).ServeHTTP" || name == "SpecFileHandler$1" {
 		return true
 	}
 	// the security wrapper and the authenticators (C11)
